@@ -270,12 +270,15 @@ func verifHasDot(d string) bool {
 // the literal shortcut (shortcutLen symbolic bytes over {a,b,:,/}, or "*" when
 // shortcutLen is 0) and ndom $domain values of domLen symbolic bytes over {z,q,.,*}.
 // Natively the rule is parsed from its text.
+// VerifTableAlphabet is the alphabet of shortcuts and URLs in the table harnesses (set by the harness).
+var VerifTableAlphabet = "ab:/"
+
 func VerifTableRule(p string, shortcutLen, ndom, domLen int) *NetworkRule {
 	r := &NetworkRule{RuleText: p, FilterListID: 1}
 	if shortcutLen == 0 {
 		r.pattern = "*"
 	} else {
-		sc := verifString(p+".shortcut", shortcutLen, "ab:/")
+		sc := verifString(p+".shortcut", shortcutLen, VerifTableAlphabet)
 		r.pattern = sc
 		r.Shortcut = sc
 		verifAssume(sc[0] != '/' || sc[shortcutLen-1] != '/') // not a regular expression rule
